@@ -78,3 +78,240 @@ def data_kind_by_type(ctors):
             raise AnalysisBroken("constructor %s: stored type is not a constant" % name)
         m.setdefault(r["type"], set()).add(r["data"])
     return m
+
+
+# ---------------------------------------------------------------------------
+# loaders
+
+def read_extent(prog, fname, param=0, _depth=0):
+    """number of bytes a function may read through pointer parameter `param`
+    (max constant offset dereferenced + access size), following callees.
+    AnalysisBroken if the access is not at constant offsets."""
+    f = prog.fn(fname)
+    if _depth > 6:
+        raise AnalysisBroken("read_extent: recursion too deep at %s" % fname)
+    ext = 0
+    for i in f.all_insts():
+        if i.op in ("load", "store"):
+            ptr = i.operands[0] if i.op == "load" else i.operands[1]
+            root, steps = apath(ptr)
+            if root == ("arg", param):
+                if any(s[0] not in ("off",) for s in steps):
+                    continue  # load through a loaded pointer: not the parameter's own bytes
+                off = steps[0][1] if steps else 0
+                ty = i.type if i.op == "load" else i.d.get("val_type", "i8")
+                size = max(1, (int(ty[1:]) if ty.startswith("i") and ty[1:].isdigit() else 64) // 8)
+                ext = max(ext, off + size)
+            elif root[0] == "inst" and _derived_from_arg(f, ptr, param):
+                raise AnalysisBroken("%s reads its pointer parameter at a non-constant offset (%s)" % (fname, i.loc()))
+        elif i.op == "call" and i.callee and not i.callee.startswith("llvm."):
+            for k, a in enumerate(i.operands):
+                root, steps = apath(a)
+                if root == ("arg", param) and all(s[0] == "off" for s in steps):
+                    off = steps[0][1] if steps else 0
+                    if i.callee in prog.funcs:
+                        ext = max(ext, off + read_extent(prog, i.callee, k, _depth + 1))
+                    else:
+                        raise AnalysisBroken("%s passes its buffer to external %s" % (fname, i.callee))
+    return ext
+
+
+def _derived_from_arg(f, v, param):
+    seen = set()
+    stack = [v]
+    while stack:
+        x = stack.pop()
+        x = strip_casts(x)
+        if isinstance(x, Arg):
+            if x.i == param:
+                return True
+            continue
+        if isinstance(x, Inst) and x.id not in seen:
+            seen.add(x.id)
+            if x.op in ("getelementptr", "phi", "select", "bitcast"):
+                stack.extend(x.operands[:1] if x.op == "getelementptr" else x.operands)
+    return False
+
+
+# ---------------------------------------------------------------------------
+# T-dispatch: the decoder action table
+
+def callback_fields(prog):
+    """LLVM field index -> declared field name of struct cbor_callbacks"""
+    return [m["name"] for m in prog.struct_members("cbor_callbacks")]
+
+
+def describe_arg(t):
+    """abstract description of a callback argument term"""
+    width = None
+    while isinstance(t, tuple) and t[0] == "cast":
+        t = t[3]
+    if isinstance(t, tuple) and t[0] == "c":
+        return ("const", t[1])
+    if isinstance(t, tuple) and t[0] == "op" and t[1] in ("sub", "add"):
+        a, b = t[3], t[4]
+        ca = a if a[0] == "c" else None
+        x = b if ca is not None else a
+        c = ca if ca is not None else (b if b[0] == "c" else None)
+        while isinstance(x, tuple) and x[0] == "cast":
+            x = x[3]
+        if c is not None and isinstance(x, tuple) and x[0] == "call":
+            bits = 64 if t[2] == "i64" else 32
+            cv = c[1]
+            if t[1] == "add":
+                cv = (-cv) & ((1 << bits) - 1)
+            if t[1] == "sub" and ca is not None:
+                return ("other", t)
+            return ("loader-bias", x[1], x, cv)
+    if isinstance(t, tuple) and t[0] == "call":
+        return ("loader", t[1], t)
+    if isinstance(t, tuple) and t[0] in ("p", "arg"):
+        from paths import ptr_key
+        b, o = ptr_key(t)
+        return ("ptr", b, o)
+    return ("other", t)
+
+
+def dispatch(prog, eff):
+    """Enumerate every path of cbor_stream_decode (claim_bytes inlined) and
+    summarise it.  Returns (outcomes_by_byte, all_outcomes, npaths)."""
+    import paths as P
+    f = prog.fn("cbor_stream_decode")
+    src_i = f.param_index("source")
+    size_i = f.param_index("source_size")
+    ctx_i = f.param_index("context")
+    res_i = 0 if f.params[0].get("sret") else None
+    if res_i is None:
+        raise AnalysisBroken("cbor_stream_decode: result is not returned through an sret slot")
+    X = P.Executor(prog, eff, inline={"claim_bytes"})
+    ps = X.run("cbor_stream_decode")
+    fields = callback_fields(prog)
+    # field offsets of struct cbor_decoder_result
+    ro = {m["name"]: m["offset_bits"] // 8 for m in prog.struct_members("cbor_decoder_result")}
+    SRC = ("arg", src_i)
+    RES = ("arg", res_i)
+    outs = []
+    for pa in ps:
+        st = pa.st
+        o = dict(path=pa, src_i=src_i, size_i=size_i, ctx_i=ctx_i)
+        o["status"] = st.load(P.mkptr(RES, ro["status"]), "i32", None)
+        o["read"] = st.load(P.mkptr(RES, ro["read"]), "i64", None)
+        o["required"] = st.load(P.mkptr(RES, ro["required"]), "i64", None)
+        # which initial bytes take this path
+        byte_sets = [v for k, v in st.inset.items() if _is_first_byte(k, SRC)]
+        excl = [v for k, v in st.nec.items() if _is_first_byte(k, SRC)]
+        if byte_sets:
+            o["bytes"] = sorted(byte_sets[0])
+        elif excl:
+            o["bytes"] = sorted(set(range(256)) - set(excl[0]))
+        else:
+            o["bytes"] = None  # path taken before the switch (first claim failed)
+        claims = []
+        claimed = 0
+        cbs = []
+        reads = []
+        open_claim = None
+        for e in pa.events:
+            if e.kind == "enter" and e.callee == "claim_bytes":
+                open_claim = e
+            elif e.kind == "leave" and e.callee == "claim_bytes":
+                ok = e.res == ("c", 1)
+                amount = e.args[0]
+                claims.append(dict(amount=amount, ok=ok, before=claimed, provided=e.args[1], ev=e, nfacts=e.nfacts))
+                if ok:
+                    claimed = ("sum", claimed, amount) if not (isinstance(claimed, int) and amount[0] == "c") else claimed + amount[1]
+                open_claim = None
+            elif e.kind == "load" and open_claim is None and e.depth == 0:
+                b, off = P.ptr_key(e.args[0])
+                if b == SRC:
+                    reads.append(dict(off=off, width=1, claimed=claimed, ev=e, via="load"))
+            elif e.kind == "call" and e.ckind == "lib" and e.depth == 0:
+                for k, a in enumerate(e.args):
+                    b, off = P.ptr_key(a) if isinstance(a, tuple) else (a, 0)
+                    if b == SRC:
+                        w = read_extent(prog, e.callee, k)
+                        reads.append(dict(off=off, width=w, claimed=claimed, ev=e, via=e.callee))
+            elif e.kind == "call" and e.ckind == "callback":
+                idx = int(e.callee.split("#")[1])
+                cbs.append(dict(field=fields[idx], index=idx, args=e.args, desc=[describe_arg(a) for a in e.args[1:]],
+                                ctx_ok=(e.args[0] == ("arg", ctx_i)), claimed=claimed, ev=e))
+            elif e.kind == "call" and e.depth == 0 and e.ckind not in ("lib",):
+                o.setdefault("other_calls", []).append(e)
+        o["claims"], o["callbacks"], o["reads"], o["claimed"] = claims, cbs, reads, claimed
+        outs.append(o)
+    by_byte = {b: [] for b in range(256)}
+    pre = []
+    for o in outs:
+        if o["bytes"] is None:
+            pre.append(o)
+        else:
+            for b in o["bytes"]:
+                by_byte[b].append(o)
+    return by_byte, pre, outs
+
+
+def _is_first_byte(term, SRC):
+    t = term
+    while isinstance(t, tuple) and t[0] == "cast":
+        t = t[3]
+    return isinstance(t, tuple) and t[0] == "ld" and t[1] == SRC and t[2] == 0
+
+
+# Reference action table, written from RFC 8949 §3 / Appendix B and libcbor's
+# documented profile - independently of the implementation.
+MT_NAMES = {0: "uint", 1: "negint", 2: "byte_string", 3: "string", 4: "array_start", 5: "map_start", 6: "tag"}
+ARG_BYTES = {24: 1, 25: 2, 26: 4, 27: 8}
+
+
+def ref_dispatch(b):
+    """returns ('error',) or dict(kind=callback field name, argbytes=N, imm=bool, bias=int, payload=bool, const=...)"""
+    mt, ai = b >> 5, b & 31
+    if mt in (0, 1):
+        if ai < 24:
+            return dict(field="%s8" % MT_NAMES[mt], argbytes=0, imm=True, bias=mt << 5)
+        if ai in ARG_BYTES:
+            n = ARG_BYTES[ai]
+            return dict(field="%s%d" % (MT_NAMES[mt], 8 * n), argbytes=n, imm=False)
+        return ("error",)
+    if mt in (2, 3):
+        if ai < 24:
+            return dict(field=MT_NAMES[mt], argbytes=0, imm=True, bias=mt << 5, payload=True)
+        if ai in ARG_BYTES:
+            return dict(field=MT_NAMES[mt], argbytes=ARG_BYTES[ai], imm=False, payload=True)
+        if ai == 31:
+            return dict(field=MT_NAMES[mt] + "_start", argbytes=0, noarg=True)
+        return ("error",)
+    if mt in (4, 5):
+        if ai < 24:
+            return dict(field=MT_NAMES[mt], argbytes=0, imm=True, bias=mt << 5)
+        if ai in ARG_BYTES:
+            return dict(field=MT_NAMES[mt], argbytes=ARG_BYTES[ai], imm=False)
+        if ai == 31:
+            return dict(field="indef_" + MT_NAMES[mt], argbytes=0, noarg=True)
+        return ("error",)
+    if mt == 6:
+        if ai < 24:
+            return dict(field="tag", argbytes=0, imm=True, bias=mt << 5)
+        if ai in ARG_BYTES:
+            return dict(field="tag", argbytes=ARG_BYTES[ai], imm=False)
+        return ("error",)
+    # major type 7
+    if ai < 20:
+        return ("error",)       # unassigned simple values: not in libcbor's profile
+    if ai in (20, 21):
+        return dict(field="boolean", argbytes=0, const=ai - 20)
+    if ai == 22:
+        return dict(field="null", argbytes=0, noarg=True)
+    if ai == 23:
+        return dict(field="undefined", argbytes=0, noarg=True)
+    if ai == 24:
+        return ("error",)       # one-byte simple value: unsupported
+    if ai == 25:
+        return dict(field="float2", argbytes=2, imm=False, float=True)
+    if ai == 26:
+        return dict(field="float4", argbytes=4, imm=False, float=True)
+    if ai == 27:
+        return dict(field="float8", argbytes=8, imm=False, float=True)
+    if ai == 31:
+        return dict(field="indef_break", argbytes=0, noarg=True)
+    return ("error",)
